@@ -74,6 +74,15 @@ CORPUS_M += [
     [('var', 'field', '1'), ('tr', 'field', 'x'), ('hdr', 'K'), ('prop', 'let', 'field', '1'), ('prop', 'let', 'let', 'field'),
      ('prop', 'field', 'field', 'x'), ('prop', 'field', 'match', '1'), ('prop', 'match', 'field'), ('prop', 'category', 'C')],
 ]
+CORPUS_M += [
+    # later sections with strictly higher / equal / lower / default priority: the rules come back in FILE order
+    [('hdr', 'Low'), ('prop', 'match', 'x'), ('prop', 'category', 'C'), ('prop', 'priority', '1'),
+     ('hdr', 'High'), ('prop', 'match', 'x'), ('prop', 'category', 'C'), ('prop', 'priority', '100'),
+     ('hdr', 'Default'), ('prop', 'match', 'x'), ('prop', 'tags', 't'),
+     ('hdr', 'Mid'), ('prop', 'match', 'x'), ('prop', 'category', 'C'), ('prop', 'priority', '60'),
+     ('hdr', 'High2'), ('prop', 'priority', '100'), ('prop', 'match', 'amount > 100 and contains("LONGER PATTERN")'), ('prop', 'category', 'C'),
+     ('hdr', 'Neg'), ('prop', 'match', 'x'), ('prop', 'category', 'C'), ('prop', 'priority', '-3')],
+]
 CORPUS_V = [
     [('hdr', '[x'), ('filter', 'x'), ('hdr', 'a [b'), ('filter', '1'), ('desc', '[d]'), ('hdr', '[['), ('filter', 'x'), ('svar', 'field', '1')],
     [('gvar', 'big', '1'), ('gvar', 'Big', 'total > 100'), ('hdr', 'V'), ('svar', 'x', '1'), ('svar', 'X', 'total > 100'),
@@ -654,6 +663,44 @@ def check_drop(kind, lines, key):
     return None
 
 
+def check_mode(lines):
+    """What is read from a .rules file does not depend on the engine's match mode (the mode only governs matching)."""
+    a = impl_one('m', lines)
+    b = run_impl(IMPL, {'m_ms': ['\n'.join(lines)]})['m_ms'][0]
+    if a != b:
+        return {'observed': {'first_match': a, 'most_specific': b},
+                'why': "parse_merchants(text, 'most_specific') differs from parse_merchants(text): " +
+                       ('rules are not in file order' if a.get('ok') and b.get('ok') and sorted(map(json.dumps, a['rules'])) == sorted(map(json.dumps, b['rules']))
+                        else 'different outcome')}
+    return None
+
+
+SEQ_CORPUS = [
+    # the same path, unloadable for a DIFFERENT reason each time (and loadable in between)
+    [['[A]', 'category: c'], ['[A]', 'match: x', 'colour: r', 'category: c'], ['[A]', 'match: x', 'category: c'],
+     ['[A]', 'match: )(', 'category: c'], ['junk', '[A]', 'match: x', 'category: c'], ['v = )(', '[A]', 'match: x', 'category: c'],
+     ['[A]', 'match: x', 'category: c', '[B]', 'category: d'], ['[A]', 'match: x', 'category: c', '', '[B]', 'category: d']],
+    # same defect, only the line differs; then the very same text again (may be silent: already shown)
+    [['[A]', 'match: x', 'priority: z'], ['', '[A]', 'match: x', 'priority: z'], ['', '[A]', 'match: x', 'priority: z'], ['[A]', 'match: x', 'priority: z']],
+]
+
+
+def check_load_seq(texts, only=None):
+    """Every step whose file is unloadable with an error not shown earlier in the process must tell the user something."""
+    job = {'texts': ['\n'.join(t) for t in texts], 'dir': os.path.join(WORKDIR, 'loadseq')}
+    if only:
+        job['only'] = only
+    steps = run_impl(IMPL, {'load_seq': [job]})['load_seq'][0]
+    shown = set()
+    for k, st in enumerate(steps):
+        if st['err'] is not None:
+            if st['err'] not in shown and not st['said'] and not st['exc']:
+                return {'observed': steps, 'step': k,
+                        'why': f'step {k + 1}: the file has a parse error not reported before in this process, the loaders returned {st["values"]} and nothing reached the user'}
+            shown.add(st['err'])
+    return None
+
+
 def check_count(kind, lines):
     r = impl_one(kind, lines)
     if not r.get('ok'):
@@ -900,7 +947,10 @@ def main(tier):
         'int() is modelled for ASCII digits, sign and single underscores (no Unicode digits, no 4300-digit limit)',
         'merchant_utils.load_merchant_rules (CSV reader reached by the fall-through) is an uninterpreted function csv_rules in the model',
         'error KIND is model-internal (theorem statements); the correspondence compares error class + line number, never message texts',
-        'dict-valued results (variables, fields) are compared in insertion order against the model, as dicts by the direct oracles']
+        'dict-valued results (variables, fields) are compared in insertion order against the model, as dicts by the direct oracles',
+        'the model reports a load error on every call; the code shows each distinct (path, message) once per process: the harness clears that '
+        'memory before single calls and checks sequences of different errors on one path separately',
+        'the match mode is not a parameter of the model: the harness checks that parse_merchants(text, most_specific) reads exactly what the default mode reads']
     res = run.proof_step(COQ_FILES, extra_trusted=[
         'harness/c17.py + harness/impl_c17.py (generators, correspondence, direct oracles)',
         'C17/Model.v is a hand model (no translator): tied to /repo only by the correspondence stream'])
@@ -1034,6 +1084,41 @@ def main(tier):
                                     shrunk_from=len(c['lines'])), sig)
 
     _t(run, 'garbage law done')
+    # ---- the match mode never changes what is read ----------------------------------------------
+    mcases = [c for c in cases if c['kind'] == 'm' and c['role'] in ('base', 'corrupt')]
+    ms = run_impl(IMPL, {'m_ms': ['\n'.join(c['lines']) for c in mcases]}, timeout=3000)['m_ms']
+    n_mode = len(mcases)
+    for c, b in sorted(zip(mcases, ms), key=lambda t: len(t[0]['lines'])):
+        if results[c['id']] != b:
+            sig = 'C17/match-mode-changes-what-is-read'
+            if sig not in seen_sig:
+                seen_sig.add(sig)
+                sl, _ = maybe_shrink(sig, lambda: shrink_lines(c['lines'], None, lambda cand, k2: check_mode(cand) is not None), (c['lines'], None))
+                report('mode', dict(check_mode(sl) or {}, kind='counterexample', check='mode', file_kind='m', lines=sl,
+                                    expected="the same rules, in file order, whatever the match mode",
+                                    obligation='c17_one_rule_per_section', shrunk_from=len(c['lines'])), sig)
+    # ---- one process, one path, several different load errors ----------------------------------------
+    n_seq = 0
+    seqs = [(q, None) for q in SEQ_CORPUS] + [(SEQ_CORPUS[0], ['rules']), (SEQ_CORPUS[0], ['transforms']), (SEQ_CORPUS[0], ['tag_rules'])]
+    for texts, only in seqs:
+        n_seq += 1
+        f = check_load_seq(texts, only)
+        if f:
+            sig = 'C17/load-error-not-reported-after-an-earlier-report'
+            if sig not in seen_sig:
+                seen_sig.add(sig)
+                tx = list(texts)
+                changed = True
+                while changed and len(tx) > 2:       # shrink the sequence
+                    changed = False
+                    for j in range(len(tx)):
+                        cand = tx[:j] + tx[j + 1:]
+                        if check_load_seq(cand, only):
+                            tx, changed = cand, True
+                            break
+                report('loadseq', dict(check_load_seq(tx, only) or f, kind='counterexample', check='loadseq', file_kind='m', texts=tx, only=only,
+                                       lines=tx[-1], expected='each new load error of the path reaches the user',
+                                       obligation='c17_load_error_is_reported', shrunk_from=len(texts)), sig)
     # ---- command level ---------------------------------------------------------------------------
     rejected_m = [c for c, r in zip(cases, results) if c['kind'] == 'm' and c['role'] == 'corrupt' and r.get('ok') is False]
     rejected_v = [c for c, r in zip(cases, results) if c['kind'] == 'v' and c['role'] == 'corrupt' and r.get('ok') is False]
@@ -1116,7 +1201,7 @@ def main(tier):
     nontriv = {(k, '\n'.join(l)) for (k, l), r in zip(pairs_, results)
                if 'ok' in r and any(header_shaped(k, x) for x in l) and sum(1 for x in l if not is_skip(x) and not header_shaped(k, x)) >= 2}
     run.cov.update({
-        'evaluations': len(cases) + len(drop_jobs) + len(model_idx) + n_load + n_clirun + 1,
+        'evaluations': len(cases) + len(drop_jobs) + len(model_idx) + n_load + n_clirun + 1 + n_mode + n_seq,
         'distinct_nontrivial': len(nontriv),
         'rule': 'generated valid .rules/views files (1-3 sections, every property kind, values containing ":" "=" "#" non-ASCII), every layout edit '
                 'of each (comment, blank, trailing blanks, CRLF, re-indentation, key case + indented header for .rules, permutation of distinct '
@@ -1131,7 +1216,7 @@ def main(tier):
                                                                             'other_exceptions': [e for e, v in table.items() if isinstance(v, str)]},
         'discarded': {'not_compared_with_model (impl raised a foreign exception or oracle unavailable)': len(cases) - len(model_idx),
                       'expression_pool_misclassified': pool_bad},
-        'api_load_cases': n_load, 'cli_runs': n_clirun + 1, 'broken': broken})
+        'api_load_cases': n_load, 'match_mode_cases': n_mode, 'load_sequences': n_seq, 'cli_runs': n_clirun + 1, 'broken': broken})
     run.finish()
 
 
@@ -1165,6 +1250,10 @@ def replay(path):
         f = {'observed': r, 'why': 'foreign exception'} if 'exc' in r else None
     elif chk == 'load':
         f = check_load(lines)
+    elif chk == 'mode':
+        f = check_mode(lines)
+    elif chk == 'loadseq':
+        f = check_load_seq(obj['texts'], obj.get('only'))
     elif chk == 'cli':
         f = check_cli(lines, obj.get('which', 'rules'))
     elif chk == 'cli-control':
